@@ -225,6 +225,7 @@ Inductive result :=
 | RResp (code : Z) (chal : N)
 | RErr (is_net timeout temporary : bool)   (* the transport's error *)
 | RPredErr                (* the error a predicate returned for a response *)
+| RTokenResp (code : Z)   (* the token service answered with a status other than 200 *)
 | RCtx                    (* the context's error *)
 | RPanic                  (* the policy panicked *)
 | RNotRewindable | RGetBodyFailed   (* auth.rewindRequestBody errors *)
@@ -407,6 +408,47 @@ Definition auth_do (warm : bool) (p : policy) (cn : cancel) (bd : body) (sc : li
 Definition plain_do_at (p : policy) (cn : cancel) (bd : body) (sc : list beh) (t0 : Z) : auth_out :=
   let o := round_trip p cn bd (init_state bd) sc t0 in
   mkAuth (o_res o) (o_trace o) [] [] (o_time o).
+
+(* ------------------------------------------------------------------ *)
+(* The token request of a Bearer challenge.  fetchDistributionToken (GET, no body) and
+   fetchOAuth2Token (POST, form body from a strings.Reader: replayable) send it with
+   Client.send, i.e. through the same retrying transport; any answer but 200 is an error of
+   Do.  [tb]: the token request's body, [tsc]: the token service's script. *)
+
+Record tok_out := mkTok {
+  k_ok : bool; k_res : result; k_trace : list event; k_time : Z; k_script : list beh
+}.
+
+Definition token_ok (r : result) : bool := match r with RResp c _ => c =? 200 | _ => false end.
+Definition token_error (r : result) : result :=
+  match r with RResp c _ => RTokenResp c | _ => r end.
+
+Definition fetch_token (p : policy) (cn : cancel) (tb : body) (tsc : list beh) (t0 : Z) : tok_out :=
+  let o := round_trip p cn tb (init_state tb) tsc t0 in
+  mkTok (token_ok (o_res o)) (token_error (o_res o)) (o_trace o) (o_time o) (o_script o).
+
+Record authk_out := mkAuthK {
+  ak_res : result; ak_first : list event; ak_token : list event; ak_second : list event; ak_time : Z
+}.
+
+(* auth.Client.Do, empty token cache, with the token request spelled out: first send; on a
+   Basic or Bearer challenge: (Bearer) fetch the token -- its failure ends the call --, then
+   rewind the body (after the fetch, as in the source), then send again *)
+Definition auth_do_tok (p : policy) (cn : cancel) (bd : body) (sc : list beh)
+           (tb : body) (tsc : list beh) : authk_out :=
+  let o1 := round_trip p cn bd (init_state bd) sc 0 in
+  if challenged (o_res o1) then
+    let k := if bearer_challenged (o_res o1) then fetch_token p cn tb tsc (o_time o1)
+             else mkTok true (o_res o1) [] (o_time o1) tsc in
+    if k_ok k then
+      match rewind bd (o_st o1) with
+      | RwOk st2 =>
+        let o2 := round_trip p cn bd st2 (o_script o1) (k_time k) in
+        mkAuthK (o_res o2) (o_trace o1) (k_trace k) (o_trace o2) (o_time o2)
+      | rw => mkAuthK (rewind_error rw) (o_trace o1) (k_trace k) [] (k_time k)
+      end
+    else mkAuthK (k_res k) (o_trace o1) (k_trace k) [] (k_time k)
+  else mkAuthK (o_res o1) (o_trace o1) [] [] (o_time o1).
 
 Definition auth_attempts (a : auth_out) : list (Z * str) :=
   attempts (a_first a) ++ attempts (a_second a) ++ attempts (a_third a).
